@@ -977,7 +977,7 @@ func TestSchemaRequests(t *testing.T) {
 		Check:      checkGen,
 		NonTrivial: func(c genCase) bool { return classify(c).nontrivial },
 		Classes:    func(c genCase) []string { return classify(c).classes },
-		Quick:      120, Thorough: 250,
+		Quick:      120, Thorough: 200,
 	})
 }
 
